@@ -29,6 +29,7 @@ pub uninterp spec fn s_sqrt(x: f64) -> f64;
 pub uninterp spec fn s_min(x: f64, y: f64) -> f64;
 pub uninterp spec fn s_max(x: f64, y: f64) -> f64;
 pub uninterp spec fn s_neg(x: f64) -> f64;
+pub uninterp spec fn s_clamp(x: f64, a: f64, b: f64) -> f64;
 pub uninterp spec fn s_of_usize(x: usize) -> f64;
 pub uninterp spec fn s_is_nan(x: f64) -> bool;
 pub uninterp spec fn EPSILON_s() -> f64;
@@ -55,3 +56,4 @@ pub assume_specification [f64::is_nan] (x: f64) -> (r: bool) ensures r == s_is_n
 #[verifier::external_body] pub fn to_f(x: usize) -> (r: f64) ensures r == s_of_usize(x) { x as f64 }
 #[verifier::external_body] pub exec const F64_INFINITY: f64 ensures F64_INFINITY == INFINITY_s() { f64::INFINITY }
 #[verifier::external_body] pub exec const F64_EPSILON: f64 ensures F64_EPSILON == EPSILON_s() { f64::EPSILON }
+pub assume_specification [f64::clamp] (x: f64, a: f64, b: f64) -> (r: f64) ensures r == fdefs::s_clamp(x, a, b);
